@@ -32,11 +32,13 @@ from props import c08 as base
 
 ID = "C20"
 BUILD_C = True
-AUDIT_IMPORTS = ["HypatiaProofs.Properties.C20"]
+AUDIT_IMPORTS = ["HypatiaProofs.Properties.C20", "HypatiaProofs.Properties.C20Keys"]
 THEOREMS = ["Hyp.C20." + t for t in (
     "c20_apply_normalised", "c20_apply_passthrough", "c20_tree_score", "c20_okapi_raw_bound",
     "c20_okapi_bound", "c20_cosine_raw_bound", "c20_cosine_bound", "c20_cosine_repeated_term", "c20_sort_weighted", "c20_sort_limit", "c20_sort_empty",
-    "c20_sort_unweighted")]
+    "c20_sort_unweighted",
+    # composed with C03 (Properties/C20Keys.lean): the scored result has the keys of the key-set model
+    "c20_scored_keys_are_c03_result", "c20_scored_documents_satisfy_query")]
 CASES = {"quick": 900, "thorough": 30000}
 BUDGET_S = {"quick": 45, "thorough": 780}
 BATCH = 40
